@@ -254,6 +254,48 @@ def py_args(r):
             "as CALL_IQ_A does in C")
 
 
+def rule_codegen(r):
+    """Generated C declarations: scalars by value, vector parameters as arrays/pointers; python functions are vectorised
+    element by element."""
+    mi = pf.lib("modelinfo")
+    ad = mi.func("Parameter.as_definition")
+    t = pf.unparse(ad)
+    r.check("if self.length == 1: return 'double %s;' % self.id else: return 'double %s[%d];' % (self.id, self.length)" in t.replace("\n", " "),
+            MI, "Parameter.as_definition", "double id; | double id[length];", ad.lineno, "struct member sized by the vector length")
+    af = mi.func("Parameter.as_function_argument")
+    t = pf.unparse(af)
+    r.check("if self.length == 1: return 'double %s' % self.id else: return 'double *%s' % self.id" in t, MI, "Parameter.as_function_argument",
+            "double id | double *id", af.lineno)
+    g = pf.lib("generate")
+    gf = g.func("_gen_fn")
+    t = pf.unparse(gf)
+    r.check("par_decl = ', '.join((p.as_function_argument() for p in pars)) if pars else 'void'" in t and "body = getattr(model_info, name)" in t,
+            "sasmodels/generate.py", "_gen_fn", "declaration from the given parameter list in order; body from the model attribute", gf.lineno)
+    ms = g.func("make_source")
+    t = pf.unparse(ms)
+    for fn_, pars in (("form_volume", "call_table.form_volume_parameters"), ("shell_volume", "call_table.form_volume_parameters"),
+                      ("Iq", "[q] + call_table.iq_parameters"), ("Iqxy", "[qx, qy] + call_table.iq_parameters + call_table.orientation_parameters"),
+                      ("Iqac", "[qab, qc] + call_table.iq_parameters"), ("Iqabc", "[qa, qb, qc] + call_table.iq_parameters")):
+        blk = "if isinstance(model_info.%s, str): pars = %s source.append(_gen_fn(model_info, '%s', pars))" % (fn_, pars, fn_)
+        r.check(blk in t, "sasmodels/generate.py", "make_source", "inline %s(...) declared with %s" % (fn_, pars), ms.lineno,
+                "same lists, same order as the CALL_* macros")
+    kp = pf.lib("kernelpy")
+    vi = kp.func("_create_vector_Iq")
+    r.check("return np.array([Iq(qi, *args) for qi in q])" in pf.unparse(vi), KP, "_create_vector_Iq", "vector_Iq = [Iq(qi, *args) for qi in q]", vi.lineno)
+    vx = kp.func("_create_vector_Iqxy")
+    r.check("return np.array([Iqxy(qxi, qyi, *args) for (qxi, qyi) in zip(qx, qy)])".replace("(qxi, qyi) in", "qxi, qyi in") in
+            pf.unparse(vx).replace("(qxi, qyi) in", "qxi, qyi in"), KP, "_create_vector_Iqxy", "vector_Iqxy pairs qx[i] with qy[i]", vx.lineno)
+    cd = kp.func("_create_default_functions")
+    order = [pf.call_name(c) for c in pf.calls_in(cd)]
+    r.check(order == ["_create_vector_Iq", "_create_vector_Iqxy"], KP, "_create_default_functions", "Iq vectorised before Iqxy is defaulted from it", cd.lineno)
+    init = kp.func("PyKernel.__init__")
+    t = pf.unparse(init)
+    r.check("(qx, qy) = (q_input.q[:, 0], q_input.q[:, 1])" in t or "qx, qy = (q_input.q[:, 0], q_input.q[:, 1])" in t, KP, "PyKernel.__init__",
+            "qx, qy = q[:, 0], q[:, 1]", init.lineno)
+    r.check("lambda mode: cbrt(0.75 / pi * volume(*volume_args))" in t, KP, "PyKernel.__init__", "default R_eff = cbrt(3V/4pi)", init.lineno,
+            "equivalent volume sphere when the definition gives no radius_effective")
+
+
 VALIDATIONS = [
     # (module, function, [acceptable test texts], what)
     ("modelinfo", "parse_parameter", ["low >= high", "not low < high", "high <= low"], "lower limit must be below upper limit"),
@@ -344,6 +386,7 @@ RULES = [
     ("R-C09-volume-order", 65, "volume tuple order", make_c_rule("R-C09-volume-order", py_volume)),
     ("R-C09-gate", 8, "python gate = C gate", rule_gate),
     ("R-C09-args", 700, "call arguments in table order at every call site of every unit", make_c_rule("R-C09-args", py_args)),
+    ("R-C09-codegen", 14, "declaration generators and python vectorisation", rule_codegen),
     ("R-C09-validate", 26, "validation raise discipline and reachability", rule_validate),
 ]
 
